@@ -236,6 +236,11 @@ def compare_runs(ref, other):
 
 
 def main(argv):
+    import time
+    T0 = time.time()
+    def phase(n):
+        if os.environ.get('VERIF_TIMING'):
+            sys.stderr.write('[c02 %6.1fs] %s\n' % (time.time() - T0, n))
     rep = vlib.Report(PROP, 'proof')
     rep.checker_cmd = ('make -C coq props/C02.vo && coqc props/C02.v (Print Assumptions) && '
                        'coqc cases/C02*/s*.v (vm_compute imismatches/fmismatches/smismatches)')
@@ -247,7 +252,7 @@ def main(argv):
     rep.assumptions = ['PARTIAL: end-to-end equality of whole programs is only sampled (differential runs), not proved',
                        'theorems: FLAT addresses such that no dword of an access crosses a cache line; scalar loads dword aligned; lane address arithmetic without 64-bit wrap-around']
     thorough = vlib.tier() == 'thorough'
-    counts = {'init': 1500 if thorough else 300, 'flat': 1500 if thorough else 240, 'smem': 800 if thorough else 160}
+    counts = {'init': 1500 if thorough else 200, 'flat': 1500 if thorough else 150, 'smem': 800 if thorough else 100}
 
     replay_file = None
     if '--replay' in argv:
@@ -259,7 +264,9 @@ def main(argv):
         rep.violation({'broken': 'go build of harness/cmd/c02 failed', 'log': log[-4000:]}, nofail=True, text='harness build failed')
         return rep.finish()
 
+    phase('go build done')
     ok, log = vlib.coq_build(COQ_TARGETS)
+    phase('coq build done')
     okp, plog, thms = vlib.coq_check_props(PROP) if ok else (False, log, [])
     if not (ok and okp):
         rep.obligation('coq build', False)
@@ -268,6 +275,7 @@ def main(argv):
     for name, axioms in thms:
         rep.obligation('theorem ' + name + (' [axioms: %s]' % ', '.join(axioms) if axioms else ' [closed under the global context]'), True)
 
+    phase('props checked')
     # ---- mechanism level: both implementations + model on the same inputs
     replay = None
     if replay_file:
@@ -313,6 +321,7 @@ def main(argv):
                 known_seen.setdefault(known, text)
             else:
                 bad.append((i, text))
+        phase('monitor ' + mode)
         chk, ty = CHECKER[mode]
         okc, mism, clog = vlib.eval_cases(PROP + mode, HEADER, [c['coq'] for c in cases], shard_size=(10 if mode == 'flat' else 25), checker=chk, ty=ty)
         rep.obligation('correspondence %s: %d cases, both implementations vs model' % (mode, len(cases)), okc and not mism)
@@ -346,8 +355,9 @@ def main(argv):
         if not rep.samples and cases:
             rep.samples.append({'mode': mode, 'input': {k: (v if not isinstance(v, list) or len(v) <= 12 else v[:12] + ['...']) for k, v in strip(mode, cases[0]).items()}})
     for k, text in known_seen.items():
-        rep.known_finding('%s: %s [witness: %s]' % (k, KNOWN_TEXT[k], text[:160]))
+        rep.known_finding('%s: %s [witness: %s]' % (k, KNOWN_TEXT[k], text[:160]), key=k)
 
+    phase('mechanisms done')
     # ---- end-to-end differential (validation only)
     runs = []
     e2e_diffs = []
@@ -391,7 +401,7 @@ def main(argv):
         rep.coverage['e2e_workloads_with_deterministic_buffers'] = det
         rep.obligation('end-to-end differential (validation, not proof): %d runs of %d workloads agree with emulation' % (len(runs), len(by)), not e2e_diffs)
         for k in known_e2e:
-            rep.known_finding(k)
+            rep.known_finding(k, key=k.split(':')[0])
         rep.coverage['e2e_runs'] = len(runs)
         rep.coverage['e2e_workloads'] = ['%s/%d/%s' % k for k in by]
         rep.coverage['e2e_buffers_compared'] = sum(len(r['buffers']) for r in runs if r['platform'] != 'emu')
@@ -405,6 +415,7 @@ def main(argv):
             if r['verified'] and r['buffers']:
                 distinct.add(vlib.case_hash(['bench', r['bench'], r['size'], r['arch'], r['platform']]))
 
+    phase('e2e done')
     rep.coverage.update({
         'evaluations': total,
         'distinct_nontrivial': len(distinct),
